@@ -92,6 +92,41 @@ pub fn run(tier: Tier) {
             }
         }
     }
+    // histories: the same calls with every text written into ONE reused buffer (same address, same capacity), in
+    // enumeration order; and every ordered pair of short texts of equal byte length, the second read right after the first
+    let mut buf = String::with_capacity(256);
+    for t in texts.iter().chain(texts2.iter()) {
+        buf.clear();
+        buf.push_str(t);
+        for pos in 0..=buf.len() {
+            if buf.is_char_boundary(pos) {
+                pairs += 1;
+                st.bump("reused_buffer_calls", 1);
+                check_one(&mut st, &buf, pos, None, false);
+            }
+        }
+    }
+    let short: Vec<&String> = texts.iter().chain(texts2.iter()).filter(|t| t.chars().count() <= 3 && !t.is_empty()).collect();
+    for a in &short {
+        for b2 in &short {
+            if a.len() != b2.len() || a == b2 {
+                continue;
+            }
+            for pos in 0..=b2.len() {
+                if !b2.is_char_boundary(pos) {
+                    continue;
+                }
+                buf.clear();
+                buf.push_str(a);
+                check_one(&mut st, &buf, a.len(), None, false);
+                buf.clear();
+                buf.push_str(b2);
+                pairs += 1;
+                st.bump("reused_buffer_pairs", 1);
+                check_one(&mut st, &buf, pos, None, false);
+            }
+        }
+    }
     // long lines
     let longs: Vec<usize> = if tier == Tier::Quick { vec![200] } else { vec![200, 1000, 5000] };
     for n in longs {
